@@ -106,7 +106,8 @@ def run_differential(op, tables, variant):
     if variant.get('presorted'):
         if 'presorted' not in op['accepts']:
             return None
-        tabs = [list(etl.sort(t, k)) for t, k in zip(tables, op['keys'])]
+        # pre-sorted inputs; rows of the first input as lists, of the others as tuples (any row container is a row)
+        tabs = [[(list(r) if ti == 0 else tuple(r)) for r in etl.sort(t, k)] for ti, (t, k) in enumerate(zip(tables, op['keys']))]
         kw['presorted'] = True
     for k in ('buffersize', 'tempdir', 'cache'):
         if k in variant:
